@@ -18,6 +18,9 @@ from concurrent.futures import ProcessPoolExecutor, as_completed
 from .common import HarnessError, digest_obj, jdump
 
 VERIF = os.path.dirname(os.path.dirname(os.path.abspath(__file__)))
+# evidence/ and replays/ land in /verif; TDGLSIM_OUT redirects them only when the machinery itself is
+# being tested against seeded changes (tools/*_matrix.sh), so such runs never overwrite real evidence
+OUT = os.environ.get("TDGLSIM_OUT") or VERIF
 DEFAULT_SEEDS = {}
 RUN_TIMEOUT_S = 900
 
@@ -284,7 +287,7 @@ def run_batch(prop_id, tier, seed, runs=None, workers=None, max_wall=None, selft
                 "fingerprint": final["fingerprint"],
                 "minimiser_executions": execs,
             }
-            d = os.path.join(VERIF, "replays", prop_id)
+            d = os.path.join(OUT, "replays", prop_id)
             os.makedirs(d, exist_ok=True)
             path = os.path.join(d, f"{seed}-{r['idx']}-{rule}.json")
             with open(path, "w") as fh:
@@ -409,7 +412,7 @@ def write_evidence(mod, prop_id, tier, seed, results, reports, known_hits, st, w
         "wall_s": round(wall, 2),
         "violations": len(reports),
     }
-    d = os.path.join(VERIF, "evidence")
+    d = os.path.join(OUT, "evidence")
     os.makedirs(d, exist_ok=True)
     with open(os.path.join(d, f"{prop_id}.json"), "w") as f:
         f.write(json.dumps(ev, indent=1, sort_keys=True, default=str))
